@@ -85,7 +85,22 @@ func VerifReport() {
 			newReqs = append(newReqs, req(nm, "^1.0.0"))
 		}
 	}
-	patch := remediation.ConstructPatches(analysis(oldReqs, before), analysis(newReqs, after))
+	oldRes, newRes := analysis(oldReqs, before), analysis(newReqs, after)
+	// the analyses also carry the vulnerabilities that the depth / severity / dev filters left out;
+	// one such vulnerability (with an arbitrary ID, possibly one the patch brings into view) may
+	// have been filtered out of the first analysis
+	oldRes.UnfilteredVulns = append(oldRes.UnfilteredVulns, oldRes.Vulns...)
+	newRes.UnfilteredVulns = append(newRes.UnfilteredVulns, newRes.Vulns...)
+	if verifrt.Choice("filtered-out-before", 2) == 1 {
+		b := verifrt.Byte("filtered-id")
+		verifrt.Assume(verifrt.And(b >= 'a', b <= 'e'))
+		id := "GHSA-" + string([]byte{b})
+		for _, o := range before {
+			verifrt.Assume(verifrt.Not(verifrt.StrEq(o, id)))
+		}
+		oldRes.UnfilteredVulns = append(oldRes.UnfilteredVulns, resolution.Vulnerability{OSV: &osvschema.Vulnerability{ID: id}})
+	}
+	patch := remediation.ConstructPatches(oldRes, newRes)
 	verifrt.Reach("report-built")
 
 	var fixed, introduced []string
